@@ -73,6 +73,10 @@ class VArr:
     def ndim(self):
         return 1
 
+    @property
+    def size(self):
+        return len(self.vals)
+
     def __len__(self):
         return len(self.vals)
 
@@ -188,3 +192,37 @@ def median(a):
     if n % 2:
         return _Med(MedVal(s[n // 2], 1))
     return _Med(MedVal(s[n // 2 - 1] + s[n // 2], 2))
+
+
+class VArr2D:
+    """A 2-D array of n rows x w columns as far as the frame set-up looks at it (shape, size, ndim, whole-array slice,
+    min / max as opaque tokens)."""
+
+    def __init__(self, n, w):
+        self.n, self.w = n, w
+
+    @property
+    def shape(self):
+        return (self.n, self.w)
+
+    @property
+    def ndim(self):
+        return 2
+
+    @property
+    def size(self):
+        return self.n * self.w
+
+    def __len__(self):
+        return self.n
+
+    def __getitem__(self, k):
+        if isinstance(k, slice) and k == slice(None, None, None):
+            return self
+        raise StubGap('VArr2D indexing')
+
+    def min(self):
+        return -5
+
+    def max(self):
+        return 500
